@@ -32,10 +32,10 @@
 (* State S = [live, att, attG, onMe : sets of sessions,                    *)
 (*            canW : member -> BOOLEAN,                                    *)
 (*            msgs : Seq([from, webrtc, replace, content]) (index = seq),  *)
-(*            call : the slot Topic.currentCall]                           *)
-(* The establishment timer is not a separate variable: the code arms it in *)
-(* handleCallInvite and stops it in accept / maybeEndCallInProgress, so    *)
-(* "armed" == call.active /\ ~call.accepted  (TimerArmed).                 *)
+(*            call : the slot Topic.currentCall,                           *)
+(*            armed: Topic.callEstablishmentTimer is pending]              *)
+(* The code arms the timer in handleCallInvite and stops it at acceptance  *)
+(* and in maybeEndCallInProgress.                                          *)
 (***************************************************************************)
 EXTENDS Integers, Sequences, FiniteSets, TLC
 
@@ -66,9 +66,9 @@ ReplStr(n) == IF n = 0 THEN "" ELSE ":" \o ToString(n)
 
 InitState(att, attG, onMe) ==
   [live |-> Sessions, att |-> att, attG |-> attG, onMe |-> onMe, canW |-> [u \in Members |-> TRUE],
-   msgs |-> <<>>, call |-> NoCall]
+   msgs |-> <<>>, call |-> NoCall, armed |-> FALSE]
 
-TimerArmed(S) == S.call.active /\ ~S.call.accepted
+TimerArmed(S) == S.armed
 LastId(S) == Len(S.msgs)
 
 NoOut == [code |-> 0, infos |-> {}, data |-> {}]
@@ -92,7 +92,7 @@ EndCall(S, kind, fromUser, gone, leaver, code) ==
                  x \in {y \in S.onMe \ gone : SessUser[y] \in Members /\ y \notin S.att}}
       \* the leaving session is detached by the topic goroutine while the me-topic goroutine evaluates SkipTopic: either order is real
       race == {[to |-> x, ev |-> EvHangUp, seq |-> c.seq, from |-> fromUser, via |-> "me"] : x \in ({leaver} \cap S.onMe) \ gone}
-  IN [st |-> [S EXCEPT !.msgs = Append(S.msgs, m), !.call = NoCall],
+  IN [st |-> [S EXCEPT !.msgs = Append(S.msgs, m), !.call = NoCall, !.armed = FALSE],     \* callEstablishmentTimer.Stop()
       out |-> [code |-> code, infos |-> onTopic \cup onMe, data |-> DataTo(S, gone, m, seq)],
       opt |-> race]
 
@@ -117,7 +117,8 @@ CallEvent(S, a) ==
                   others == {[to |-> x, ev |-> EvAccept, seq |-> c.seq, from |-> u, via |-> "me"] :
                                x \in {y \in S.onMe : SessUser[y] = u /\ y # s}}
               IN [st |-> [S EXCEPT !.msgs = Append(S.msgs, m),
-                                   !.call = [c EXCEPT !.parties = c.parties \cup {s}, !.accepted = TRUE]],
+                                   !.call = [c EXCEPT !.parties = c.parties \cup {s}, !.accepted = TRUE],
+                                   !.armed = FALSE],                                              \* callEstablishmentTimer.Stop()
                   out |-> [code |-> 0, infos |-> fwd \cup others, data |-> DataTo(S, {}, m, LastId(S) + 1)],
                   opt |-> {}]
   ELSE IF a.event \in Exchange THEN
@@ -164,7 +165,8 @@ Pub(S, a) ==
            seq == LastId(S) + 1
            S1 == [S EXCEPT !.msgs = Append(S.msgs, m)]
        IN [st |-> IF isCall   \* handleCallInvite
-                  THEN [S1 EXCEPT !.call = [active |-> TRUE, seq |-> seq, orig |-> s, origUid |-> u, parties |-> {s}, accepted |-> FALSE]]
+                  THEN [S1 EXCEPT !.call = [active |-> TRUE, seq |-> seq, orig |-> s, origUid |-> u, parties |-> {s}, accepted |-> FALSE],
+                                  !.armed = TRUE]                                                 \* callEstablishmentTimer.Reset(timeout)
                   ELSE S1,
            out |-> [code |-> 202, infos |-> {}, data |-> DataTo(S, {}, m, seq)],
            opt |-> {}]
@@ -177,9 +179,8 @@ Step(S, a) ==
   ELSE
   CASE a.a = "Pub" -> Pub(S, a)
     [] a.a = "C15Note" -> Note(S, a)
-    [] a.a = "C15Timeout" ->
-         IF ~S.call.active THEN Res(S, 0)
-         ELSE IF S.call.accepted THEN Res(S, 0)                 \* the real timer is stopped at accept (calls.go:313): it cannot fire, the driver does nothing
+    [] a.a = "C15Timeout" ->                                    \* the driver lets a timer expire only if the server has it pending
+         IF ~S.call.active \/ S.call.accepted \/ ~S.armed THEN Res(S, 0)
          ELSE EndCall(S, "missed", "", {}, "", 0)               \* terminateCallInProgress(true)
     [] a.a = "Sub" ->
          IF a.t = "p12" THEN (IF a.s \notin MemberSess THEN Res(S, -1)
@@ -215,9 +216,14 @@ Step(S, a) ==
 (***************************************************************************)
 (* Property monitors (C15).  P = state before, a = request, O = what was   *)
 (* observed [code, infos, data], Q = state after.  Each returns the names  *)
-(* of the violated clauses.                                                *)
+(* of the violated clauses.  X = [fault |-> an injected store fault fired   *)
+(* during this step, lost |-> ids of earlier calls of this history whose   *)
+(* ending step was hit by such a fault]: the replacement of an ending that *)
+(* the store refused to save cannot exist - everything else still holds:   *)
+(* the call ends, the peer is told, the timer is dead, a new call starts.  *)
 (***************************************************************************)
 If(c, name) == IF c THEN {} ELSE {name}
+NoFault == [fault |-> FALSE, lost |-> {}]
 
 IsInvite(a) == a.a = "Pub" /\ "head" \in DOMAIN a /\ "webrtc" \in DOMAIN a.head
 IsCallNote(a) == a.a = "C15Note"
@@ -300,18 +306,27 @@ AcceptedFor(msgs, i) == {j \in DOMAIN msgs : msgs[j].replace = ReplStr(i) /\ msg
 Invitations(msgs) == {i \in DOMAIN msgs : msgs[i].webrtc # "" /\ msgs[i].replace = ""}
 
 \* state part: every started call has exactly one ending in the topic's history, the current call has none yet
-EndsOnceState(Q) ==
+EndsOnceState(Q, lost) ==
   \A i \in Invitations(Q.msgs) :
-     /\ Cardinality(TerminalFor(Q.msgs, i)) = (IF Q.call.active /\ Q.call.seq = i THEN 0 ELSE 1)
+     /\ (IF Q.call.active /\ Q.call.seq = i THEN Cardinality(TerminalFor(Q.msgs, i)) = 0
+         ELSE IF i \in lost THEN Cardinality(TerminalFor(Q.msgs, i)) <= 1
+         ELSE Cardinality(TerminalFor(Q.msgs, i)) = 1)
      /\ Cardinality(AcceptedFor(Q.msgs, i)) <= 1
      /\ \A j \in AcceptedFor(Q.msgs, i) : \A k \in TerminalFor(Q.msgs, i) : i < j /\ j < k
 
-M_EndsExactlyOnce(P, a, O, Q) ==
-  If(EndsOnceState(Q), "EndsExactlyOnce:one_terminal_replacement_per_started_call")
+M_EndsExactlyOnce(P, a, O, Q, X) ==
+  If(EndsOnceState(Q, X.lost \cup (IF X.fault /\ Ended(P, Q) THEN {P.call.seq} ELSE {})), "EndsExactlyOnce:one_terminal_replacement_per_started_call")
   \cup If(Q.call.active => Q.call.seq \in Invitations(Q.msgs), "EndsExactlyOnce:current_call_is_a_stored_invitation")
-  \cup If(Ended(P, Q) => /\ Len(NewMsgs(P, Q)) >= 1
-                         /\ LET m == NewMsgs(P, Q)[1] IN m.replace = ReplStr(P.call.seq) /\ m.webrtc = ExpectedKind(P, a)
-                         /\ Len(NewMsgs(P, Q)) = 1, "EndsExactlyOnce:ending_kind_matches_path")
+  \cup If(Ended(P, Q) => \/ (X.fault /\ NewMsgs(P, Q) = <<>>)
+                         \/ /\ Len(NewMsgs(P, Q)) >= 1
+                            /\ LET m == NewMsgs(P, Q)[1] IN m.replace = ReplStr(P.call.seq) /\ m.webrtc = ExpectedKind(P, a)
+                            /\ Len(NewMsgs(P, Q)) = 1, "EndsExactlyOnce:ending_kind_matches_path")
+  \* the other party's session (attached before and after the step) is told that the call is over
+  \cup If(Ended(P, Q) => \A x \in ((P.call.parties \cap P.att) \cap Q.att) \cap Q.live :
+                            \E i \in O.infos : i.to = x /\ i.ev = EvHangUp /\ i.seq = P.call.seq, "EndsExactlyOnce:ending_announced_to_the_parties")
+  \* the establishment timer runs exactly while a call waits for its answer: it is dead after every ending and after acceptance
+  \* (a timer left pending would end a later call as missed), and pending while nobody has answered (else "missed on timeout" never happens)
+  \cup If(Q.armed <=> (Q.call.active /\ ~Q.call.accepted), "EndsExactlyOnce:timer_pending_exactly_while_unanswered")
   \cup If((\E m \in RangeOf(NewMsgs(P, Q)) : m.webrtc \in Terminal) => Ended(P, Q), "EndsExactlyOnce:terminal_only_when_a_call_ends")
   \* the listed paths do end the call
   \cup (IF P.call.active THEN
@@ -349,7 +364,8 @@ M_NewCallAfterEnd(P, a, O, Q) ==
   IF ~IsInvite(a) THEN {} ELSE
   If(MayStart(P, a) /\ a.s \in P.live => O.code = 202 /\ Started(P, Q) /\ Q.call.seq = Len(P.msgs) + 1, "NewCallAfterEnd:idle_topic_accepts_an_invitation")
 
-Monitors(P, a, O, Q) ==
+MonitorsX(P, a, O, Q, X) ==
   M_InviteGate(P, a, O, Q) \cup M_RoleGate(P, a, O, Q) \cup M_RelayOnlyToPeer(P, a, O, Q) \cup M_Relayed(P, a, O, Q)
-  \cup M_StaleIgnored(P, a, O, Q) \cup M_EndsExactlyOnce(P, a, O, Q) \cup M_Replacements(P, a, O, Q) \cup M_NewCallAfterEnd(P, a, O, Q)
+  \cup M_StaleIgnored(P, a, O, Q) \cup M_EndsExactlyOnce(P, a, O, Q, X) \cup M_Replacements(P, a, O, Q) \cup M_NewCallAfterEnd(P, a, O, Q)
+Monitors(P, a, O, Q) == MonitorsX(P, a, O, Q, NoFault)
 =============================================================================
